@@ -506,7 +506,12 @@ def check(repo, rep):
     rep.floor('region saver constructions in initialize_workers', nrs, 1)
     # the observers list and the split/io keywords reach the TokenizerWorker
     tw = [e[1] for l in il for e in l.effects if e[0] == 'call' and e[1][0] == 'call' and e[1][1] == ('g', 'workers', 'TokenizerWorker')]
-    rep.ob('initialize_workers builds the TokenizerWorker with all keywords (**kwargs)', bool(tw) and all(dict(c[3]).get('**') == ('p', 'kwargs') for c in tw), cx.where('cmdline_util', ifn), 'initialize_workers:tokenizer-kwargs')
+    if tw:
+        rep.ob('initialize_workers builds the TokenizerWorker with all keywords (**kwargs)', all(dict(c[3]).get('**') == ('p', 'kwargs') for c in tw), cx.where('cmdline_util', ifn), 'initialize_workers:tokenizer-kwargs')
+    else:
+        rep.unknown('initialize_workers: no construction of the TokenizerWorker was found on its paths (built by code the evaluator does not follow, e.g. the methods of a builder object): what it is given is not decided')
+    from .c12 import check_split_kwargs
+    check_split_kwargs(cx, rep)
     # ---------------------------------------------------------------- PrintWorker: format keys
     pc = cx.cls('workers', 'PrintWorker')
     pm = cx.model.find_method('workers', pc, '_process_message')
@@ -515,7 +520,7 @@ def check(repo, rep):
     pdefs = cx.field_defs('workers', 'PrintWorker')
     fmtf = [f for f, ds in pdefs.items() if any(d['value'][0] == 'call' and d['value'][1] == ('g', 'util', 'make_duration_formatter') for d in ds)]
     pff = [f for f, ds in pdefs.items() if any(d['value'] == ('p', 'print_format') for d in ds)]
-    for l in cx.leaves_of(*pm):
+    for l in cx.leaves_dyn(pm):
         pr = [e[1] for e in l.effects if e[0] == 'call' and e[1][0] == 'call' and e[1][1] == ('b', 'print')]
         rep.ob('one line is printed per detection', len(pr) == 1, cx.where(pm[0], pm[2]), 'PrintWorker._process_message:print', '%d print calls' % len(pr))
         if not pr or not pr[0][2]:
@@ -734,7 +739,14 @@ def check(repo, rep):
             r = [x for x in n.body if isinstance(x, ast.Return)]
             rets0 = bool(r) and all(isinstance(x.value, ast.Constant) and x.value.value == 0 for x in r)
             rep.ob('the normal end of processing exits with status 0', rets0, cx.where('cmdline', n), 'main:normal-status')
-    rep.ob('main() has the ArgumentError -> 1 and end-of-processing -> 0 exits', rets1 and rets0, cx.where('cmdline', mfn), 'main:exit-paths')
+    has1 = any(isinstance(n, ast.ExceptHandler) and n.type is not None and 'ArgumentError' in ast.unparse(n.type) for n in ast.walk(mfn))
+    has0 = any(isinstance(n, ast.ExceptHandler) and n.type is not None and 'EndOfProcessing' in ast.unparse(n.type) for n in ast.walk(mfn))
+    if has1 and has0:
+        rep.ob('main() has the ArgumentError -> 1 and end-of-processing -> 0 exits', rets1 and rets0, cx.where('cmdline', mfn), 'main:exit-paths')
+    else:
+        # the errors are handled some other way than by except clauses of main() (a context manager, a helper): their exit
+        # status is not decided here
+        rep.unknown('main(): the handlers that turn ArgumentError into status 1 and the end of processing into status 0 are not except clauses of main() (handled elsewhere: not decided)')
     # -j without -O raises ArgumentError in make_kwargs
     raising = [l for l in ml if l.outcome == 'raise']
     okj = False
